@@ -24,8 +24,8 @@ theorem window_step (q : Int) (u : ResUnit) (init : Date) (k : Nat) :
 /-- **`window_spec`.** A successful `_aggregate_period` re-labels every source cell (in `(ps, pe, ev)` order)
 with one of the consecutive windows `windowAt k = [grid k + 1 day, grid (k+1)]`, `grid k = anchor + k·res`,
 such that the cell's period starts and ends no later than the window's end; evaluation date, values and metadata
-are untouched. (`windowAt` is by construction a chain of adjacent intervals; that they are disjoint needs the
-step to be increasing, i.e. a positive quantity — an assumption of the model, `aggFuel`.) -/
+are untouched. (`windowAt` is by construction a chain of adjacent intervals, `window_consecutive`; that they are
+disjoint is `window_disjoint_month` / `window_disjoint_day` for a positive quantity.) -/
 theorem window_spec {tr : Transc} {t out : List Cell} {q : Int} {s : String} {origin : Date}
     {prem : Bool} (h : aggregatePeriod tr t (some (q, s)) origin prem = .ok out) :
     ∃ q' u init rel, standardizeResolution q s = .ok (q', u) ∧
@@ -193,6 +193,13 @@ theorem window_disjoint_month {q : Int} {init : Date} (hq : 1 ≤ q) (hv : init.
     (he : init.isMonthEnd = true) {j k : Nat} (hjk : j < k) :
     (windowAt q .month init j).2 < (windowAt q .month init k).1 :=
   window_disjoint_month_agg hq hv he hjk
+
+/-- the same for day units (day / week resolutions), inside `date.min … date.max`: grid point `k` is `k·q` days
+after the anchor (`iterD_day_agg`) and the date order is the order of ordinals -/
+theorem window_disjoint_day {q : Int} {init : Date} (hq : 1 ≤ q) (hv : init.valid = true)
+    (h1 : 1 ≤ init.ordinal) {j k : Nat} (hjk : j < k) (h2 : init.ordinal + (k : Int) * q ≤ 3652059) :
+    (windowAt q .day init j).2 < (windowAt q .day init k).1 :=
+  window_disjoint_day_agg hq hv h1 hjk h2
 
 /-! ### 4. evaluation aggregation only removes cells -/
 
